@@ -8,7 +8,7 @@ CONSTANT Depth
 GetStep(k) == /\ hist' = Append(hist, [a |-> "get", r |-> 0, batch |-> << <<k, ChainGet(k)>> >>, res |-> <<>>])
               /\ UNCHANGED mview
 SimNext == \/ \E b \in RandomSubset(2, Batches) : \E dels \in RandomSubset(1, SUBSET b) : Write(b, dels)
-           \/ P1 \/ P2 \/ P3 \/ PSync
+           \/ P1 \/ P2 \/ P3 \/ PSync \/ PFail
            \/ \E r \in Readers : R1(r) \/ R2(r)
            \/ \E k \in RandomSubset(1, CKeys) : GetStep(k)
 SimSpec == Init /\ [][SimNext]_vars
